@@ -14,6 +14,7 @@ import datetime as dt
 import json
 import random
 import re
+import warnings
 import zoneinfo
 from zoneinfo import ZoneInfo
 
@@ -54,6 +55,7 @@ K_DASH = 'default-time-dash-pattern-no-error'
 K_GUARD = 'v1-shared-pattern-object-first-type-wins'
 K_NAME = 'v1-pattern-function-name-collision'
 K_STICKY = 'v1-annotated-pattern-leaks-to-later-fields'
+K_QUOTE = 'v1-pattern-text-quote-or-brace'
 
 
 # --------------------------------------------------------------------------- directives / truncation (reference)
@@ -164,7 +166,9 @@ def canon_exc(e, engine):
             m = re.search(r'with the provided patterns: (.*)$', str(be), re.S)
             if m:
                 try:
-                    return ['nomatch', [str(x) for x in ast.literal_eval(m.group(1))]]
+                    with warnings.catch_warnings():
+                        warnings.simplefilter('ignore')       # (a backslash of a pattern is not escaped in the message)
+                        return ['nomatch', [str(x) for x in ast.literal_eval(m.group(1))]]
                 except Exception:
                     return ['nomatch-unreadable']
         if isinstance(be, TypeError):
@@ -680,6 +684,48 @@ def gen_zone_class(rng):
     return cm, 'zone'
 
 
+# DIMENSION the LITERAL TEXT of a pattern (its own seeded stream): a pattern is data -- whatever characters stand between its directives
+# (quotes, braces, backslashes, '%%', '#', '$', back-quotes, brackets, words), a value formatted with it loads, and a string matching
+# neither is rejected with an error naming exactly the declared patterns.  Both engines, both declaration forms, every position.
+# KNOWN (genuine defect of the unchanged v1 engine, findings/v1-pattern-text-quote-or-brace.py): the v1 code generator pastes the
+# patterns' repr into an f-string literal, so ' " { } \ in a pattern break the generated source or mangle the pattern named by the error;
+# failures of v1 classes with such a pattern are attributed to that entry while the probe shows the defect (`attribute`), and such classes
+# are not sent to the model (which has no such mode).
+LITERALS = ["'", '"', '{', '}', '{{', '}}', '{x}', '\\', "o'clock", ' "h" ', '%%', '#', '$', '`', ' of ', ';', '(', ')', '[', ']', ' @ ', '\\n',
+            "''", '~', '!r', ' = ']
+QUOTE_CHARS = set('\'"{}\\')
+
+
+def with_literal(rng, p):
+    toks = re.findall(r'%.|[^%]+', p)
+    for _ in range(rng.choice([1, 1, 2])):
+        toks.insert(rng.randrange(len(toks) + 1), rng.choice(LITERALS))
+    return ''.join(toks)
+
+
+def quote_hazard(cm):
+    return cm['engine'] == 'v1' and any(QUOTE_CHARS & set(p) for po in cm['pats'] for p in po['patterns'])
+
+
+def gen_literal_class(rng):
+    eng = rng.choice(['default', 'v1', 'v1'])
+    cm = {'engine': eng, 'pats': [], 'fields': []}
+    used = set()
+    for _ in range(rng.choice([1, 1, 2])):
+        kind = rng.choice(['date', 'time', 'time', 'datetime'])
+        form = rng.choice(['ann', 'sub'])
+        sub = form == 'ann' and rng.random() < 0.25
+        if form == 'ann' and ('t', kind, sub) in used:
+            continue
+        used.add(('t', kind, sub))
+        pid = new_pat(rng, cm, kind, form)
+        po = cm['pats'][pid]
+        j = rng.randrange(len(po['patterns']))
+        po['patterns'][j] = with_literal(rng, po['patterns'][j])
+        add_field(rng, cm, kind, sub, form, container=rng.random() < 0.35, pid=pid)
+    return cm, 'literal'
+
+
 def gen_family_class(rng, j):
     return gen_helper_class(rng) if j % 2 == 0 else gen_iso_shaped_class(rng)
 
@@ -1030,12 +1076,18 @@ class QS(JSONWizard):
         v1 = True
     a: Annotated[date, VPattern('%d/%m/%Y')] = None
     b: date = None
+
+@dataclass
+class QQ(JSONWizard):
+    class _(JSONWizard.Meta):
+        v1 = True
+    t: VTimePattern["%H o'clock {x}"] = None
 '''
 
 
 def probe_quirks():
     """witness inputs of the four known deviation modes, run on the implementation (real classes in a real module)"""
-    q = dict(dash=False, guard=False, name=False, sticky=False)
+    q = dict(dash=False, guard=False, name=False, sticky=False, quote=False)
     built = model.Built(T('any'), extra_src=PROBE_SRC)
     try:
         QD, QG, QN, QS = (built.get(n) for n in ('QD', 'QG', 'QN', 'QS'))
@@ -1057,6 +1109,10 @@ def probe_quirks():
             q['sticky'] = True
         except Exception:
             q['sticky'] = False
+        try:
+            q['quote'] = built.get('QQ').from_dict({'t': "07 o'clock {x}"}).t != dt.time(7)
+        except Exception:
+            q['quote'] = True
     finally:
         built.close()
     return q
@@ -1200,6 +1256,8 @@ def attribute(cm, hz, quirks, f, doc, what_kind):
     for key, qn in ((K_GUARD, 'guard'), (K_NAME, 'name'), (K_STICKY, 'sticky')):
         if key in hz and quirks[qn]:
             return key
+    if quirks.get('quote') and quote_hazard(cm) and what_kind in ('value', 'neither'):
+        return K_QUOTE
     return None
 
 
@@ -1226,6 +1284,7 @@ def run(ctx: C.Ctx):
                 'functions); ISO-shaped patterns that read ISO text differently (%Y-%d-%m, %Y-%m-%d %M:%H, %H:%S:%M, a sign ISO reads as an offset) with '
                 'values valid under both readings; the declared zone of the v1 Aware variants (any key of the IANA table by lexical class: -, +, digits, '
                 'several /, no /; ZoneInfo objects; fixed-offset timezone objects with / without a name) x subscripted / Annotated form x every position; '
+                'literal text between the directives of a pattern (quotes, braces, backslashes, %%, brackets, words; both engines); '
                 'per field documents in modes pattern / ISO / mixed / junk / other-pattern / number / null; each through from_dict, to_dict, '
                 'from_dict again on the implementation (oracle: stdlib strptime/fromisoformat readings, truncation law checked) and through the '
                 'Lean model with stdlib-backed tables. Non-trivial = distinct (class model, field, document).')
@@ -1241,14 +1300,17 @@ def run(ctx: C.Ctx):
     ncls = ctx.quick(1200, 12000)
     nfam = ctx.quick(500, 5000)
     nzone = ctx.quick(400, 4000)
+    nlit = ctx.quick(300, 3000)
     main_rng, frng, zrng = rng, random.Random(f'C17:{ctx.seed}:families'), random.Random(f'C17:{ctx.seed}:zones')
+    lrng = random.Random(f'C17:{ctx.seed}:literals')
     reqs, pend = [], []
-    for i in range(ncls + nfam + nzone):
+    for i in range(ncls + nfam + nzone + nlit):
         if ctx.done(i):
             break
         # the directed families have their own seeded streams (the main stream is the same with and without them)
-        rng = main_rng if i < ncls else frng if i < ncls + nfam else zrng
-        cm, cat = gen_class(rng) if i < ncls else gen_family_class(rng, i - ncls) if i < ncls + nfam else gen_zone_class(rng)
+        rng = main_rng if i < ncls else frng if i < ncls + nfam else zrng if i < ncls + nfam + nzone else lrng
+        cm, cat = (gen_class(rng) if i < ncls else gen_family_class(rng, i - ncls) if i < ncls + nfam else
+                   gen_zone_class(rng) if i < ncls + nfam + nzone else gen_literal_class(rng))
         if not cm['fields']:
             continue
         pick_specs(rng, cm)
@@ -1356,6 +1418,9 @@ def run(ctx: C.Ctx):
             mtys = [model_ty(f['ty']) for f in cm['fields']]
             if any(t is None for t in mtys):
                 ctx.count('model_skipped:union-or-mixed-typeddict')      # outside the model's type universe: oracle only
+                continue
+            if quirks.get('quote') and quote_hazard(cm):
+                ctx.count('model_skipped:known-quote-or-brace-in-pattern')   # the recorded defect has no mode in the model: oracle only
                 continue
             req = {'op': 'c17', 'engine': cm['engine'], 'quirks': quirks,
                    'pats': [{'patterns': po['patterns'], 'tz': tz_model(po['tz']),
